@@ -149,6 +149,23 @@ def run(ctx):
         T2, F2, _ = call_bool_edges(cd, "core::option::Option::is_some")
         wit = cd.uncrossed_path([d for _, d in T], rets, blocks=idc, edges=F2) if T else [0]
         r3.check(bool(T) and bool(idc) and wit is None, "abrupt-exit=>server-idle", "Drop for Client marks a still-assigned server idle", "Drop for Client no longer marks the server idle after an abrupt exit")
+    # a registry entry belongs to one client: a ClientStats carrying a real id is built only by Client::startup (registered there);
+    # the throw-away client of a CancelRequest, whose process_id is the *target's*, must not carry that id - client_entrypoint calls
+    # stats.disconnect() on every Err result, which removes the entry with that id
+    cs_new = [c for c in F.all_calls("pgcat::stats::client::ClientStats::new") if "::test" not in c.body.name and not c.body.name.startswith("bin:")]
+    makers = sorted({c.body.name.replace("::{closure#0}", "").split("::")[-1] for c in cs_new})
+    r1.check(makers == ["startup"], "client-stats-makers", "ClientStats with a real id are built only in Client::startup", "ClientStats::new is also called from %s: a second object with a registered client's id lets an unrelated disconnect() "
+             "remove that client from SHOW CLIENTS / SHOW POOLS while it is still connected" % [m for m in makers if m != "startup"])
+    cancel_b = F.body("pgcat::client::Client::cancel::{closure#0}")
+    if cancel_b:
+        for b_, blk, st in F.aggregates("pgcat::client::Client"):
+            if b_ is not cancel_b:
+                continue
+            op = st["rv"]["ops"][st["rv"]["fields"].index("stats")]
+            prod = {o.call.name.split("::")[-1] for o in origins(cancel_b, op, taint=True) if o.kind == "call"}
+            params = {o.what for o in origins(cancel_b, op, taint=True) if o.kind == "param"}
+            r1.check("default" in prod and "new" not in (prod - {"default"}) or prod <= {"default", "new"} and not params, "cancel-client-has-no-identity", "the cancel-mode client carries default (unregistered, id 0) statistics",
+                     "the cancel-mode client's statistics are built from the request's process id (which is the target client's id)")
     # ---------------- R4 totals are monotone
     r4 = ctx.rule("C18-R4", "total counters are only ever increased (fetch_add / fetch_max); store / fetch_sub touch only state, per-period and gauge fields", floor=20)
     nsites = 0
